@@ -12,6 +12,10 @@ LEVEL_TEXT = ("static: decides, for all deadline values (they are only compared,
               "later-than-deadline or later-than-maxtv value; the expiry test agrees with it (deadline == now is expired); every expired head is "
               "re-queued (removed from the index) per loop iteration; whoever creates a new earliest deadline wakes the event thread; the event thread "
               "computes its sleep outside its mutex, rounds it up to >= 1 ms, and all backends map 0 to 'no timeout'. Does not decide wall-clock bounds.")
+# seventh-round addition
+TECHNIQUE += "; exact evaluation of the event thread's sleep computation (the CFG fragment between ares_timeout and the wait call) over a finite domain of (tv_sec, tv_usec) pairs"
+LEVEL_TEXT += (" (EVLOOP, seventh round) the sleep handed to the wait is decided by interpreting the event thread's own statements for 52 remaining-time values chosen at the rounding "
+               "boundaries: >= 1 ms and never shorter than the remaining time whenever a deadline exists, 0 when none does; any spelling of the computation is accepted.")
 LEVEL_NOTE = "trusts clang CFG + extractor; OS primitives (poll/epoll/select, pipe) are assumed to behave as documented"
 DESIGN_REF = "DESIGN.md §6/C07"
 EXPLANATION = LEVEL_TEXT
@@ -606,26 +610,69 @@ def r_evloop(prog, R):
             r.ok("no artificial maximum", f.loc(tc["ln"]))
         else:
             r.ok("maximum passed to ares_timeout", f.loc(tc["ln"]), nontrivial=False)
-    # rounding: timeout_ms = sec*1000 + usec/1000 + k, k >= 1, assigned only when a deadline exists; 0 otherwise
+    # rounding, decided by exact evaluation of the fragment between `tvout = ares_timeout(..)` and the wait over a finite domain of (tv_sec, tv_usec):
+    # a deadline gives a sleep of >= 1 ms (0 means 'no timeout' to every backend) that does not end before the deadline; no deadline gives 0
+    import evalx
+    tasg = [(b, i, el) for b, i, el in f.elements() if el["k"] == "asg" and is_var(nocast(el["e"]["l"]), "tvout") and "ares_timeout" in render(el["e"].get("r"))]
     asg = [(b, i, el) for b, i, el in f.elements() if el["k"] == "asg" and is_var(nocast(el["e"]["l"]), "timeout_ms")]
-    if r.require(len(asg) == 1, "event loop: timeout_ms assignment not found"):
-        b, i, el = asg[0]
-        terms = _sum_terms(el["e"]["r"])
-        consts = [const_val(t) for t in terms if const_val(t) is not None]
-        txt = [render(t) for t in terms]
-        has_sec = any("tv_sec" in t and "1000" in t for t in txt)
-        has_usec = any("tv_usec" in t and "/" in t and "1000" in t for t in txt)
-        plain_floor = any(key(nocast(t)) in ("(tvout->tv_usec / 1000)",) for t in terms)
-        if has_sec and has_usec and plain_floor and consts and sum(consts) >= 1:
-            r.ok("sleep rounded up to >= 1 ms", f.loc(el))
+    dinit = [v for _, _, el in f.elements() if el["k"] == "decl" for v in el["vars"] if v["n"] == "timeout_ms"]
+    if r.require(len(tasg) == 1 and asg and waits and len(dinit) == 1, "event loop: `tvout = ares_timeout(..)`, the timeout_ms computation or the wait call not found"):
+        tb, ti, tel = tasg[0]
+        wb, wi, wc = waits[0]
+        init = const_val(dinit[0].get("init")) if dinit[0].get("init") is not None else None
+        kz = "no deadline -> wait without timeout (timeout_ms 0)"
+        kr = "sleep rounded up to >= 1 ms"
+        if init is None:
+            r.viol(kz, f.name, f.loc(f.ln), "timeout_ms has no constant initial value")
         else:
-            r.viol("sleep rounded up to >= 1 ms", f.name, f.loc(el), "timeout_ms = %s: with a deadline that is due (0 remaining) the value can be 0, which every backend treats as 'sleep without timeout'; or the sleep ends before the deadline" % render(el["e"]["r"]))
+            bad_r, bad_z, unknown = None, None, None
+            dom = [(s_, u_) for s_ in (0, 1, 2, 59) for u_ in (0, 1, 499, 500, 999, 1000, 1001, 1999, 2000, 500000, 999000, 999001, 999999)]
+
+            def walk_frag(env):
+                out = {}
+                try:
+                    res = evalx.run_cfg(f, env, start=tb.id, start_idx=ti + 1, stop_at={(wb.id, wi)}, out=out, max_steps=32)
+                except evalx.Unknown as ex:
+                    return None, str(ex)
+                if res[0] != "stop":
+                    return None, "the walk from ares_timeout did not reach the wait call (%s)" % (res[0],)
+                return out.get("timeout_ms"), None
+            for s_, u_ in dom:
+                ms, why = walk_frag({"timeout_ms": init, "tvout": 1, "tvout->tv_sec": s_, "tvout->tv_usec": u_})
+                if why:
+                    unknown = why
+                    break
+                if ms is None or ms < 1 or ms * 1000 < s_ * 1000000 + u_:
+                    bad_r = (s_, u_, ms)
+                    break
+            if unknown is None:
+                ms, why = walk_frag({"timeout_ms": init, "tvout": 0, "tvout->tv_sec": 0, "tvout->tv_usec": 0})
+                if why:
+                    unknown = why
+                elif ms != 0:
+                    bad_z = ms
+            if unknown is not None:
+                r.broke("event loop: timeout computation not interpretable: %s" % unknown)
+            else:
+                if bad_r is None:
+                    r.ok(kr, f.loc(asg[0][2]), note="%d (tv_sec, tv_usec) pairs evaluated" % len(dom))
+                else:
+                    r.viol(kr, f.name, f.loc(asg[0][2]), "for a remaining time of %d s %d us the event thread passes timeout_ms = %s to the wait: 0 is 'sleep without timeout' to every backend (an overdue "
+                           "request is never processed) and a value below the remaining time wakes before the deadline" % bad_r)
+                if bad_z is None:
+                    r.ok(kz, f.loc(wc["ln"]))
+                else:
+                    r.viol(kz, f.name, f.loc(wc["ln"]), "with no deadline (ares_timeout returned NULL) the wait is given %s ms instead of 0 = unlimited" % bad_z)
         mf = MustFacts(f)
-        facts = mf.cond_facts_at(b, i)
-        if any(norm_cmp(c, p)[0] in ("!=", "truth") and is_var(nocast(norm_cmp(c, p)[1]), "tvout") for c, p in facts):
-            r.ok("sleep set iff a deadline exists", f.loc(el))
+        allg = True
+        for b, i, el in asg:
+            facts = mf.cond_facts_at(b, i)
+            if not any(norm_cmp(c, p)[0] in ("!=", "truth") and is_var(nocast(norm_cmp(c, p)[1]), "tvout") for c, p in facts):
+                allg = False
+        if allg:
+            r.ok("sleep set iff a deadline exists", f.loc(asg[0][2]))
         else:
-            r.viol("sleep set iff a deadline exists", f.name, f.loc(el), "timeout_ms computed without testing ares_timeout's result")
+            r.viol("sleep set iff a deadline exists", f.name, f.loc(asg[0][2]), "timeout_ms computed without testing ares_timeout's result")
     # backends: timeout 0 <=> infinite
     for name, prim, argi in (("ares_evsys_epoll_wait", "epoll_wait", 3), ("ares_evsys_poll_wait", "poll", 2), ("ares_evsys_select_wait", "select", 4)):
         g = prog.func(name, required=False)
